@@ -158,6 +158,15 @@ ToCsvOK(f, header, hascols, cols, bytes, txt) ==
 
 \* what reading the written bytes back must give (C13): null strings return as empty strings, or
 \* all empty strings as null with EmptyNull; everything else identical (NaN stays NaN)
+\* The round trip is not demanded where the text cannot carry the information back: a null (or empty) cell of
+\* an enum column is written as an empty field, which a reader told the declared values - without EmptyNull -
+\* must refuse unless "" is one of them (C17 outranks C13 there).
+CsvRoundTripApplies(f, conf) ==
+  ~(\E c \in 1..Len(f.cols) : \E k \in 1..Len(conf.enumvals) :
+       /\ conf.enumvals[k].name = f.cols[c].name /\ Len(conf.enumvals[k].vals) > 0
+       /\ conf.emptynull = 0 /\ RankOf(conf.enumvals[k].vals, <<>>) = 0
+       /\ \E r \in 1..f.n : IsNull(f.cols[c].cells[r]) \/ f.cols[c].cells[r] = MkCell(<<>>))
+
 NullRule(f, emptynull) ==
   [f EXCEPT !.cols = [c \in 1..Len(f.cols) |->
      IF f.cols[c].typ \in {"string", "enum"}
